@@ -242,7 +242,7 @@ Theorem observation_roundtrip : forall cf n ops,
 Proof. exact ProofsWire.observation_roundtrip. Qed.
 Print Assumptions observation_roundtrip.
 
-Theorem model_meets_spec_wire : forall l : list tok, parse_case l <> None -> case_oracle_fresh l ->
+Theorem model_meets_spec_wire : forall l : list tok, parse_case l <> None \/ is_purity l = true -> case_oracle_fresh l ->
   run_spec l (run_model l) = [].
 Proof. exact ProofsWire.model_meets_spec_wire. Qed.
 Print Assumptions model_meets_spec_wire.
